@@ -440,13 +440,23 @@ func genC03(c *Ctx) {
 	for _, ctx := range c03Contexts {
 		forms := []string{"content"}
 		prefixes := []string{""}
+		if ctx[1] == "" && (ctx[0] == "script" || ctx[0] == "style" || ctx[0] == "textarea" || ctx[0] == "title") {
+			// the action AFTER the end tag of a special element, the end tag written with every separator before '>'
+			forms = []string{"content", "after"}
+		}
 		if ctx[1] != "" {
 			forms = []string{"dq", "sq"}
 			prefixes = []string{"", "/p/", "/p?q=", "https://x.example/"}
 		}
 		for _, form := range forms {
+			if form == "after" {
+				prefixes = []string{"", " ", "\t", "\n", "\f", "\r", "/", " \r ", "\r/"}
+			} else if ctx[1] == "" {
+				prefixes = []string{""}
+			}
 			for _, pre := range prefixes {
-				if pre != "" && !(ctx[1] == "href" || ctx[1] == "src" || ctx[1] == "action" || ctx[1] == "formaction") {
+				if form == "after" {
+				} else if pre != "" && !(ctx[1] == "href" || ctx[1] == "src" || ctx[1] == "action" || ctx[1] == "formaction") {
 					continue
 				}
 				for _, tag := range safeTags {
@@ -457,6 +467,8 @@ func genC03(c *Ctx) {
 							}
 							var text string
 							switch form {
+							case "after":
+								text = "<" + ctx[0] + ">x</" + ctx[0] + pre + ">{{.}}</" + ctx[0] + ">"
 							case "content":
 								text = "<" + ctx[0] + ">{{.}}</" + ctx[0] + ">"
 							case "dq":
